@@ -38,7 +38,8 @@ Record case := {
   c_export : obs string;            (* "".join(export(triplets)) *)
   c_source : option string;         (* shipped trajectory file the triplets were read from, if any *)
   c_with : option (obs oresult);    (* TrajectoryParser(domain, problem).parse_trajectory(file with that text) *)
-  c_deduced : obs oresult           (* TrajectoryParser(domain).parse_trajectory(...) *)
+  c_deduced : obs oresult;          (* TrajectoryParser(domain).parse_trajectory(...) *)
+  c_strict : obs nat                (* len(parse_trajectory(..., strict_trajectory_validation=True)) with the problem if any *)
 }.
 
 Section Judge.
@@ -183,7 +184,14 @@ Section Judge.
     match c_source c with Some t => text_matches t | None => true end.
 
   (* ---------- recorded finding classes, decided on the input ---------- *)
-  Definition has_repeat (s : mstate) : bool := existsb (fun kv => has_dup (snd (fst kv))) (den_fluents s).
+  (* D07: a fluent with a repeated argument, or one already collapsed by an effect that wrote it (it is then printed
+     with fewer arguments than the function is declared with) *)
+  Definition has_repeat (s : mstate) : bool :=
+    existsb (fun kv => has_dup (snd (fst kv)) ||
+                       match dget (d_funcs (c_dom c)) (fst (fst kv)) with
+                       | Some sg => negb (Nat.eqb (List.length sg) (List.length (snd (fst kv))))
+                       | None => false
+                       end) (den_fluents s).
   Definition known_class : bool :=
     has_repeat (c_first c) || existsb (fun am => has_repeat (snd am)) (c_steps c) ||      (* D07 *)
     match c_steps c with [] => true | _ => false end.                                     (* D56: empty trajectory *)
@@ -194,9 +202,25 @@ Section Judge.
   Definition verdict_of : verdict :=
     {| v_agree :=
          tables_ok &&
-         obs_eqb String.eqb model_export (match c_export c with Returned t => Returned (unesc_s t) | Raised => Raised end) &&
+         (* the exported text, compared as the token tree the library's reader makes of it *)
+         obs_eqb sexp_eqb (match model_export with Returned t => obs_of_result (parse MFile (s2t t)) | Raised => Raised end)
+                          (match c_export c with Returned t => obs_of_result (parse MFile (unesc t)) | Raised => Raised end) &&
          match c_with c with Some o => mode_agrees (Some (c_objs c)) o | None => true end &&
-         mode_agrees None (c_deduced c);
+         mode_agrees None (c_deduced c) &&
+         (* strict validation: accepted exactly when the model accepts, with the same number of components *)
+         obs_eqb Nat.eqb
+           (match c_export c with
+            | Returned t =>
+                match parse MFile (unesc t) with
+                | Ok e => match parse_trajectory (c_dom c) num_parse
+                                  (match c_with c with Some _ => Some (c_objs c) | None => None end) (c_agents c) true e with
+                          | Ok o => Returned (List.length (ob_components o))
+                          | Err _ => Raised
+                          end
+                | Err _ => Raised
+                end
+            | Raised => Raised
+            end) (c_strict c);
        v_ok :=
          export_ok && source_ok &&
          match c_with c with Some o => mode_ok true o | None => true end &&
